@@ -329,3 +329,51 @@ def merge(chk, tallies):
         for k, v in t.worst.items():
             if v > w.get(k, -1.0):
                 w[k] = v
+
+
+def open_deviations(pid=None):
+    """deviation ids of the open known findings (the as-built specification's constant)"""
+    if not os.path.exists(KNOWN):
+        return []
+    with open(KNOWN) as f:
+        data = json.load(f)
+    return sorted(set(e["deviation_id"] for e in data.get("findings", [])
+                      if e.get("status") == "open" and e.get("deviation_id") and (pid is None or e.get("property") == pid)))
+
+
+def validate_traces(chk, module, cfg_text, traces, name, sig_of, timeout=900, env=None):
+    """TLC decides whether the recorded implementation traces are behaviours of the
+    trace specification `module`.  Rejected traces become failures with signature
+    sig_of(trace, index_of_first_unmatched_event)."""
+    from . import tlc
+    if not traces:
+        return
+    path = os.path.join(tlc.scratch_root(), "%s-%d.ndjson" % (name, len(traces)))
+    with open(path, "w") as f:
+        for tr in traces:
+            f.write(json.dumps(jsonable(tr)) + "\n")
+    e = {"TRACE_FILE": path}
+    e.update(env or {})
+    res = tlc.run_tlc(module, cfg_text, env=e, workers=1, timeout=timeout)
+    chk.add_tlc("%s[%s, %d traces]" % (module, name, len(traces)), res)
+    os.remove(path)
+    if res.violated is None and res.ok:
+        chk.traces += len(traces)
+        return
+    rej = [ln for ln in res.printed if "REJECTED" in ln]
+    for ln in rej:
+        val = tlc.parse_value(ln)
+        tr = traces[val[1] - 1]
+        chk.fail(sig_of(tr, val[2]), {"trace": tr, "first_unmatched_event": val[2]})
+    if not rej:
+        chk.fail("%s|trace-spec|%s" % (chk.pid, res.violated), {"tlc": res.output[-1500:]})
+    chk.traces += len(traces) - len(rej)
+
+
+def spec_cfg(name, **subst):
+    from . import tlc
+    with open(os.path.join(tlc.SPEC_DIR, name + ".cfg")) as f:
+        s = f.read()
+    for k, v in subst.items():
+        s = s.replace("@%s@" % k, v)
+    return s
